@@ -151,13 +151,11 @@ def history_tier(res, tier, seed, shard, scratch):
                     hub.monitor = rec
                     with ioproxy.Installed(hub):
                         st = s.db.storage
-                        raw = st._handle
-                        st._handle = ioproxy.FileProxy(hub, raw, "primary")
+                        ioproxy.wrap_open_handles(hub, st)
                         try:
                             out = s.do(op)
                         finally:
-                            if isinstance(st._handle, ioproxy.FileProxy):
-                                st._handle = st._handle._f
+                            ioproxy.unwrap_handles(st)
                     after = s.file_bytes()
                     res.evaluations += 1
                     res.count("history.inserts_observed")
